@@ -43,7 +43,10 @@ PROPERTIES = {
     "C04": {
         "contracts": [arith.ScalarOperation, arith.Operation,
                       # the label SET of the common axis (union, each label once) is decided by the functions align calls:
-                      (axes.AxisUnion, r"-ff-|-if-"), axes.CommonAxis],
+                      (axes.AxisUnion, r"-ff-|-if-"), axes.CommonAxis,
+                      # Operation is proved AGAINST reindex_axis' contract (a callee): a change inside reindex_axis is noticed only by
+                      # that contract's own obligations, so they are part of this check (the fill cases; integer axes with float labels)
+                      (align.ReindexAxis, r"method_None")],
         "level": "proof",
         "min_obligations": 3000,
     },
